@@ -259,6 +259,11 @@ class ExprMixin:
             if v is not _MISSING:
                 obj.fields[attr] = v
                 return v
+            if not getattr(obj, "constructed", False):
+                # the object was shaped by a contract, not built by executing its constructor: an attribute the contract does
+                # not describe (and no `self.<attr> = ...` of an __init__ derives) is unknown, not absent - treating it as an
+                # AttributeError made every clause of the reading function vacuously true (seed r4-C03-1).
+                raise Unsupported(f"attribute {attr!r} of a contract-built {obj!r} is not described by the contract and cannot be derived from __init__")
             raise PyRaise(AttributeError, note=f"{obj!r} has no attribute {attr}")
         if isinstance(obj, SuperProxy):
             m = self.find_method(obj.after_cls, attr, skip_self=True)
